@@ -551,6 +551,12 @@ class TokenStream:
                 return ret(st, Adt('TryMatchToken', 'Fails', [me]))
             if m in ('raise_error', 'raise_custom_error'):
                 return ret(st, Adt('LiquidError', None, [Opaque(('msg', f'unexpected token {text}'))]))
+            if m == 'expect_literal':
+                if kind == 'value':
+                    return ret(st, Adt('TryMatchToken', 'Matches', [value_scalar(scalar_str(text))]))
+                return ret(st, Adt('TryMatchToken', 'Fails', [me]))
+            if m in ('expect_variable', 'expect_range', 'expect_filter_chain'):
+                return ret(st, Adt('TryMatchToken', 'Fails', [me]))
             return None
         return Abs(f'token:{self.sid}:{i}:{text}', th, (kind, text))
 
